@@ -7,6 +7,8 @@ package main
 // consumer, NewJsonNode, converts both to the same jsonNumber.
 
 import (
+	"sync"
+	_ "unsafe"
 	"fmt"
 	"go/types"
 	"math"
@@ -56,7 +58,20 @@ func (in *Interp) nativeOfJ(j *JVal, m Model) interface{} {
 	return nil
 }
 
+// yaml.v2 keeps one piece of process-global state: FutureLineWrap() switches the folding of
+// long lines off for every later Marshal. The model keeps it per path (Path.yamlNoWrap) and
+// sets the real package variable around each native Marshal.
+//
+//go:linkname yamlDisableLineWrapping gopkg.in/yaml%2ev2.disableLineWrapping
+var yamlDisableLineWrapping bool
+
+var yamlGlobalMu sync.Mutex
+
 func (in *Interp) renderYamlJ(j *JVal, m Model) string {
+	yamlGlobalMu.Lock()
+	defer yamlGlobalMu.Unlock()
+	yamlDisableLineWrapping = in.path != nil && in.path.yamlNoWrap
+	defer func() { yamlDisableLineWrapping = false }()
 	b, err := yaml.Marshal(in.nativeOfJ(j, m))
 	if err != nil {
 		panic(unsupported("yaml.Marshal: " + err.Error()))
@@ -162,6 +177,10 @@ func (e *Engine) registerYamlModels() {
 			return Tuple{bytesOfElems(in.strConst(in.renderYamlJ(j, nil)).elems), Iface{}}
 		}
 		return Tuple{bytesOfElems([]SElem{{tok: &Tok{val: j, yaml: true}}}), Iface{}}
+	}
+	m["gopkg.in/yaml.v2.FutureLineWrap"] = func(in *Interp, fn *ssa.Function, a []Value) Value {
+		in.path.yamlNoWrap = true
+		return nil
 	}
 	m["gopkg.in/yaml.v2.Unmarshal"] = func(in *Interp, fn *ssa.Function, a []Value) Value {
 		data := Str{elems: elemsOfBytes(a[0].(Slice))}
